@@ -283,7 +283,7 @@ func subC20(out string, seed uint64, tier string, arg string) {
 		"http://user@host.example.com/", "//noscheme.example.com/", "mailto:x@example.com", "http://example.com./", "http://localhost:8080/", "http://[::1]/", "http://256.1.1.1/", "http://1.2.3/"}
 	aiaCert := func(ocsp, ca []string) {
 		der, err := BuildCert(CertSpec{Subject: pkixName("Alice"), Emails: []string{"alice@example.com"}, DNS: []string{"aia.example.com"},
-			EKUs: []stdx509.ExtKeyUsage{stdx509.ExtKeyUsageServerAuth, stdx509.ExtKeyUsageEmailProtection},
+			EKUs:     []stdx509.ExtKeyUsage{stdx509.ExtKeyUsageServerAuth, stdx509.ExtKeyUsageEmailProtection},
 			Policies: []asn1.ObjectIdentifier{{2, 23, 140, 1, 5, 1, 2}}, OCSP: ocsp, CAIssuers: ca,
 			NotBefore: time.Date(2024, 3, 1, 0, 0, 0, 0, time.UTC)})
 		if err != nil {
